@@ -252,7 +252,7 @@ struct Dumper {
 
 int main(int argc, char **argv) {
   if (argc < 3) { errs() << "usage: irtool in.ll out.jsonl [--prefix P] [--noinline RE]... [--no-opt] [--emit-ll F] [--inline-threshold N]\n"; return 2; }
-  std::string in = argv[1], out = argv[2], prefix = "k_", emitll, inlThr = "100000";
+  std::string in = argv[1], out = argv[2], prefix = "k_", emitll, inlThr = "100000", peel;
   std::vector<std::string> noinl; bool doOpt = true;
   for (int i = 3; i < argc; ++i) {
     std::string a = argv[i];
@@ -261,12 +261,14 @@ int main(int argc, char **argv) {
     else if (a == "--no-opt") doOpt = false;
     else if (a == "--emit-ll" && i + 1 < argc) emitll = argv[++i];
     else if (a == "--inline-threshold" && i + 1 < argc) inlThr = argv[++i];
+    else if (a == "--peel" && i + 1 < argc) peel = argv[++i];
     else { errs() << "irtool: bad arg " << a << "\n"; return 2; }
   }
   {
     std::string thr = "-inline-threshold=" + inlThr;
-    const char *fake[] = {"irtool", thr.c_str(), "-unroll-threshold=100000", "-unroll-max-count=64", "-two-entry-phi-node-folding-threshold=64", "-phi-node-folding-threshold=64"};
-    cl::ParseCommandLineOptions(6, fake);
+    std::string pk = "-unroll-peel-count=" + (peel.empty() ? std::string("0") : peel);
+    const char *fake[] = {"irtool", thr.c_str(), "-unroll-threshold=100000", "-unroll-max-count=64", "-two-entry-phi-node-folding-threshold=64", "-phi-node-folding-threshold=64", pk.c_str()};
+    cl::ParseCommandLineOptions(peel.empty() ? 6 : 7, fake);
   }
   LLVMContext C; SMDiagnostic E;
   auto M = parseIRFile(in, E, C);
